@@ -65,6 +65,14 @@ def build_real(prog, log):
                 n = u[0].map(FUNCS["addk"], 5, k=10)
             elif k == "starmapkw":
                 n = u[0].starmap(FUNCS["add3"], c=100)
+            elif k == "starmapargs":
+                n = u[0].starmap(FUNCS["add3"], 100)
+            elif k == "filtername":
+                n = u[0].filter(FUNCS["odd1"], stream_name="f")
+            elif k == "accnone":
+                n = u[0].accumulate(FUNCS["accn"], start=None)
+            elif k == "accrsws":
+                n = u[0].accumulate(FUNCS["accrs"], start=0, returns_state=True, with_state=True)
             elif k == "filterargs":
                 n = u[0].filter(FUNCS["gtk"], 1, hi=2)
             elif k == "accws":
